@@ -16,6 +16,8 @@ type caseSpec struct {
 	Dev    bool      `json:"dev_mode"`
 	UsePre bool      `json:"use_pre_releases"`
 	Ops    []opSpec  `json:"ops"`
+	// Sibling: resources 0 and 1 are an identifier pair like (x, x.zip)
+	Sibling bool `json:"sibling,omitempty"`
 }
 
 type idxSpec struct {
@@ -65,6 +67,15 @@ var (
 	idExts  = []string{"", "", ".exe", ".zip", ".tar.gz", ".dat", ".mmdb.gz", ".json"}
 	preTags = []string{"beta", "staging", "rc", "alpha", "b"}
 )
+
+// idExtOf returns the extension part (from the first dot of the file name) of an identifier.
+func idExtOf(id string) string {
+	file := id[strings.LastIndex(id, "/")+1:]
+	if i := strings.Index(file, "."); i >= 0 {
+		return file[i:]
+	}
+	return ""
+}
 
 func genVersion(r *vlib.Rand) string {
 	v := fmt.Sprintf("%d.%d.%d", r.Intn(3), r.Intn(3), r.Intn(4))
@@ -125,6 +136,24 @@ func genCase(seed uint64, no uint64) caseSpec {
 				pools[i] = append(pools[i], "0.0.0-"+vlib.Pick(r, preTags...))
 			}
 		}
+	}
+	// sibling identifiers: the unpacked path of one resource's versions (storage path minus
+	// its last extension) is the storage path of the same version of the other. Decided on
+	// a stream of its own so that the other histories stay what they were.
+	if rs := vlib.NewRand(seed, "C19/sibling", no); nres >= 2 && rs.Chance(1, 4) {
+		base := vlib.Pick(rs, idDirs...) + vlib.Pick(rs, idNames...)
+		pair := vlib.Pick(rs, [2]string{"", ".zip"}, [2]string{".tar", ".tar.gz"}, [2]string{"", ".gz"}, [2]string{".mmdb", ".mmdb.gz"})
+		a, b := 0, 1
+		if rs.Bool() {
+			a, b = 1, 0
+		}
+		c.Res[a], c.Res[b] = base+pair[0], base+pair[1]
+		if nres == 3 && strings.HasSuffix(strings.TrimSuffix(c.Res[2], idExtOf(c.Res[2])), base[strings.LastIndex(base, "/")+1:]) {
+			c.Res[2] = "other/" + c.Res[2]
+		}
+		// overlapping version sets
+		pools[b] = append(append([]string(nil), pools[a]...), pools[b][:len(pools[b])/2]...)
+		c.Sibling = true
 	}
 	weird := r.Chance(1, 12)     // this history uses non-canonical version spellings
 	purgeHeavy := r.Chance(1, 4) // many locally available versions, frequent purges, few blacklists
